@@ -27,6 +27,7 @@ class MethodSpec:
         self.recv_mut = False     # `&mut self` (set by C07 for statically delegated traits only)
         self.mconst = None        # None | "before" | "after": a method-level const parameter KM declared before / after the type parameters
         self.extra_tparam = False # a method type parameter `U: 'static` that no argument mentions (callers need a turbofish)
+        self.mwhere = ""          # a where clause of the method itself (" where ..")
 
     def generics_text(self, extra_first=None):
         items = list(self.lifetimes)
@@ -69,7 +70,7 @@ class MethodSpec:
         elif self.typed_recv:
             recv = "self: &%sSelf" % ((self.self_lt + " ") if self.self_lt else "")
         ps = [recv] + [p.decl() for p in self.params]
-        return "%sfn %s%s(%s)%s" % ("async " if self.is_async else "", self.name, self.generics_text(), ", ".join(ps), self.ret_text())
+        return "%sfn %s%s(%s)%s%s" % ("async " if self.is_async else "", self.name, self.generics_text(), ", ".join(ps), self.ret_text(), self.mwhere)
 
     def logged(self):
         out = []
@@ -122,7 +123,17 @@ def random_method(rng, name, allow_async=True, allow_generic=True, dyn_safe=Fals
         form = "wild" if rng.random() < 0.1 else "plain"
         m.params.append(Param(TYPES[tkey], form, [nm] if form == "plain" else []))
         last = tkey
+    if allow_generic and not dyn_safe and (m.extra_tparam and rng.random() < 0.6 or rng.random() < 0.06):
+        # an argument-position `impl Trait` (an anonymous type parameter of the method), also next to a named parameter that
+        # no argument determines
+        nm = rng.choice([x for x in PLAIN_NAMES if x not in taken])
+        taken.add(nm)
+        m.params.insert(rng.randint(0, len(m.params)), Param(TYPES["into"], "plain", [nm]))
     m.attrs = rng.sample(METHOD_ATTRS, rng.randint(0, 2)) if rng.random() < 0.4 else []
+    if rng.random() < 0.12:
+        # a where clause on the method itself (it belongs to the method's signature: kept, also when an async method is rewritten)
+        m.mwhere = " where i32: ::core::marker::Copy" if dyn_safe else rng.choice(
+            [" where Self: 'static", " where i32: ::core::marker::Copy", " where Self: ::core::marker::Sized", " where Self: ::core::marker::Sized + 'static, u8: ::core::marker::Copy"])
     if rng.random() < 0.1:
         m.attrs = ["/// A.", "///", "/// B.", "///", "#[allow(unused)]", "#[allow(unused)]"] + m.attrs
     m.typed_recv = rng.random() < 0.12
@@ -221,6 +232,13 @@ GHOSTS = ["#[cfg(any())] fn ghost_a(&self, q: NoSuchType) -> i32;",
           "#[cfg_attr(all(), cfg(any()))] fn ghost_b(&self, x: i32) -> i32;",
           "#[cfg_attr(not(any()), cfg(not(all())))] #[allow(unused)] fn ghost_c(&self, x: i32, y: i32);",
           "/// docs\n    #[cfg_attr(all(), allow(unused), cfg(any()))] fn ghost_d(&self) -> i32;"]
+
+
+# the same ghosts as fns of an entraited impl block (same gate, so that trait, target trait and block agree)
+GHOST_IMPL_FNS = ["#[cfg(any())] pub fn ghost_a<D>(deps: &D, q: NoSuchType) -> i32 { 0 }",
+                  "#[cfg_attr(all(), cfg(any()))] pub fn ghost_b<D>(deps: &D, x: i32) -> i32 { x }",
+                  "#[cfg_attr(not(any()), cfg(not(all())))] #[allow(unused)] pub fn ghost_c<D>(deps: &D, x: i32, y: i32) {}",
+                  "/// docs\n    #[cfg_attr(all(), allow(unused), cfg(any()))] pub fn ghost_d<D>(deps: &D) -> i32 { 0 }"]
 
 
 def random_trait(rng, name="Tr", dyn_safe=False, allow_async=True, with_async_trait=False, allow_generic_trait=True, nmethods=None, uninferable=False,
